@@ -290,6 +290,7 @@ def gen_csv(rng, max_cols=6, max_rows=12):
     header = names[:tpos] + ['Time [s]'] + names[tpos:]
     nrows = rng.randint(1, max_rows)
     nd = rng.randint(0, 9)
+    mixed = rng.random() < 0.35
     t = rng.randint(0, 3) * 10 ** 9 + rng.randint(0, 10 ** 9 - 1)
     rows = []
     for _ in range(nrows):
@@ -299,6 +300,11 @@ def gen_csv(rng, max_cols=6, max_rows=12):
             ttxt = str(sec) + rng.choice(['', '', '.'])
         else:
             ttxt = f'{sec}.{fr}'
+        if mixed:
+            # the same instant written with another number of fraction digits (trailing zeros dropped or added), row by row
+            core = fr.rstrip('0') if nd else ''
+            core = core + '0' * rng.randint(0, 9 - len(core))
+            ttxt = f'{sec}.{core}' if core else str(sec) + rng.choice(['', '.'])
         # the value the row's text denotes (truncated to nd digits)
         tns = sec * 10 ** 9 + (int(fr) * 10 ** (9 - nd) if nd else 0)
         cells = []
